@@ -294,6 +294,13 @@ impl Server {
         );
     }
 
+    /// Read-only view of this server's statistics recorder, for the runtime-verification
+    /// harness (built with --cfg roughenough_verif)
+    #[cfg(roughenough_verif)]
+    pub fn verif_stats(&self) -> &dyn ServerStats {
+        self.stats_recorder.as_ref()
+    }
+
     pub fn thread_name(&self) -> &str {
         &self.thread_name
     }
